@@ -219,7 +219,11 @@ func c11LunaticFamily(c *c11Ctx, pfx string, h, ch int64) {
 		add("byzorder", func(l *c11Lca) { l.Byz[0], l.Byz[1] = l.Byz[1], l.Byz[0] })
 	}
 	add("badsig", func(l *c11Lca) { l.SigOK = false })
-	add("samehash", func(l *c11Lca) { l.Derive = "same"; l.CVals = c11CopyVals(c.valsAt(ch)); l.Signers = c11SortedNames(l.CVals) })
+	add("samehash", func(l *c11Lca) {
+		l.Derive = "same"
+		l.CVals = c11CopyVals(c.valsAt(ch))
+		l.Signers = c11SortedNames(l.CVals)
+	})
 	// a valid variant with the same key: one common validator fewer in the commit
 	ns := c11SortedNames(cv)
 	if len(ns) >= 2 {
@@ -346,6 +350,15 @@ func c11Ids(c *c11Ctx) (all, genuine []string) {
 	return
 }
 
+func c11TicketNames(w *c11World) []string {
+	names := make([]string, 0, len(w.tickets))
+	for n := range w.tickets {
+		names = append(names, n)
+	}
+	sort.Strings(names)
+	return names
+}
+
 // adaptive random driver
 func c11RunRandom(t *testing.T, out *c11Writer, run int, rng *rand.Rand, conc bool) {
 	c := c11GenChain(rng)
@@ -430,17 +443,14 @@ func c11RunRandom(t *testing.T, out *c11Writer, run int, rng *rand.Rand, conc bo
 			if len(w.tickets) < 2 {
 				tk++
 				id := pick()
-				if len(w.tickets) == 1 && rng.Intn(2) == 0 {
-					for _, x := range w.tickets {
-						id = x.id
-					}
+				if names := c11TicketNames(w); len(names) == 1 && rng.Intn(2) == 0 {
+					id = w.tickets[names[0]].id
 				}
 				w.exec(out, run, c11Op{Op: "AddBegin", ID: id, Tk: fmt.Sprintf("t%d", tk)})
 			}
 		case r < 84 && conc:
-			for name := range w.tickets {
-				w.exec(out, run, c11Op{Op: "AddEnd", Tk: name})
-				break
+			if names := c11TicketNames(w); len(names) > 0 {
+				w.exec(out, run, c11Op{Op: "AddEnd", Tk: names[rng.Intn(len(names))]})
 			}
 		default:
 			if height+1 > int64(c.N) {
